@@ -1,20 +1,22 @@
 ------------------------------ MODULE TemporalGen -----------------------------
 (* Direction A for C14: temporal programs as behaviours of a builder machine. *)
 EXTENDS TemporalSem, Json, SequencesExt
-CONSTANTS TFacts, Nows, Rules1, Rules2, MaxFacts, Randomized
+CONSTANTS TFacts, Nows, Rules1, Rules2, MaxFacts, Randomized,
+          MinFacts,      \* no program is chosen before this many base facts exist
+          AllowOverlap   \* several stored intervals of one atom may overlap (C05: only order-independence is judged then)
 VARIABLES tf, prog, now, phase
 Coalesced(T) == \A x \in T, y \in T : (x # y /\ x[1] = y[1]) => (x[2][2] < y[2][1] \/ y[2][2] < x[2][1])
 Init == tf = {} /\ prog = <<>> /\ now = 0 /\ phase = "facts"
 AddFact == /\ phase = "facts" /\ Cardinality(tf) < MaxFacts
            /\ \E f \in (IF Randomized THEN {RandomElement({x \in TFacts : Cardinality(tf) >= 0})} ELSE TFacts \ tf) :
-                Coalesced(tf \cup {f}) /\ tf' = tf \cup {f}
+                (AllowOverlap \/ Coalesced(tf \cup {f})) /\ tf' = tf \cup {f}
            /\ UNCHANGED <<prog, now, phase>>
-Choose == /\ phase = "facts"
+Choose == /\ phase = "facts" /\ Cardinality(tf) >= MinFacts
           /\ \E n \in (IF Randomized THEN {RandomElement({x \in Nows : Cardinality(tf) >= 0})} ELSE Nows),
                 p \in (IF Randomized THEN {RandomElement({x \in Rules1 \cup Rules2 : Cardinality(tf) >= 0})} ELSE Rules1 \cup Rules2) :
                now' = n /\ prog' = p
           /\ phase' = "done" /\ UNCHANGED tf
 Next == AddFact \/ Choose
 TFSeq == [i \in DOMAIN SetToSeq(tf) |-> <<SetToSeq(tf)[i][1], SetToSeq(tf)[i][2]>>]
-Emit == phase = "done" => PrintT(<<"CASE", ToJson([tfacts |-> TFSeq, now |-> now, rules |-> prog])>>)
+Emit == phase = "done" => PrintT(<<"CASE", ToJson([tfacts |-> TFSeq, now |-> now, rules |-> prog, overlap |-> AllowOverlap])>>)
 =============================================================================
